@@ -18,6 +18,11 @@ func vhBuildGroupMap(storage SlabStorage, addr Address, b *vDigesterBuilder, nsi
 // index root (operations then run through MapMetaDataSlab).
 var vhGroupMulti bool
 
+// vhGroupMixed: with deep, the first-level group holds the nested group AND one
+// more member that collides on the first level only (removing that member
+// leaves a group whose only entry is itself a group).
+var vhGroupMixed bool
+
 // deep: the gsize members share the first AND the second-level digest; they
 // sit in a nested inline group (third-level digests ascending) that is the
 // only entry of the first-level group.
@@ -97,6 +102,15 @@ func vhBuildGroupMapDeep(storage SlabStorage, addr Address, b *vDigesterBuilder,
 				hes.hkeys = append(hes.hkeys, Digest(d1))
 				hes.elems = append(hes.elems, ig)
 				hes.size += digestSize + ig.Size()
+				if vhGroupMixed {
+					// ... next to one more member that collides on the first level only
+					pd1 := d1
+					el, k := newSingle(true, d0, &pd1, false)
+					groupIdx = append(groupIdx, len(kvs)-1)
+					hes.hkeys = append(hes.hkeys, Digest(k.d[1]))
+					hes.elems = append(hes.elems, el)
+					hes.size += digestSize + el.size
+				}
 				ges = hes
 			} else {
 				hes := newHkeyElements(1)
@@ -216,8 +230,11 @@ func VH_C12_GroupStep() {
 	// the group's leaf is the root, or (for the operations on the group itself)
 	// a non-root leaf under an index root
 	vhGroupMulti = (op == 3 || (op >= 1 && op <= 2 && nsingle <= 1)) && vhChoose("multi", 2) == 1
+	mixed := deep && op >= 1 && op <= 3 && vhChoose("mixed", 2) == 1
+	vhGroupMixed = mixed
 	m, model, gidx := vhBuildGroupMapDeep(storage, addr, b, nsingle, gsize, gpos, external, deep)
 	vhGroupMulti = false
+	vhGroupMixed = false
 	rootID := m.SlabID()
 	snap := vhSnapshotAll(logst)
 	gd0 := model[gidx[0]].key.d[0]
@@ -225,6 +242,9 @@ func VH_C12_GroupStep() {
 	entries := gsize
 	if deep {
 		entries = 1
+		if mixed {
+			entries = 2
+		}
 	}
 	switch op {
 	case 0: // lookup of an absent key that collides with the group at the first level
